@@ -321,3 +321,11 @@ func posOf(c *Ctx, n ast.Node) string {
 	}
 	return c.L.Pos(n.Pos())
 }
+
+func constantToInt64(v constant.Value) (int64, bool) {
+	v = constant.ToInt(v)
+	if v.Kind() != constant.Int {
+		return 0, false
+	}
+	return constant.Int64Val(v)
+}
